@@ -1,4 +1,4 @@
-//@unit props=C01,C02,C12,C13 tier=quick rlimit=30
+//@unit props=C02,C12,C13 tier=quick rlimit=30
 //@file src/repr/adjacency_matrix/mod.rs
 use vstd::prelude::*;
 use vstd::set_lib::*;
@@ -8,13 +8,11 @@ use std::collections::BTreeSet;
 verus! {
 global size_of usize == 8;
 //@include prelude/std_contracts.rs
-//@include prelude/matrix_std.rs
 //@include prelude/iter_wrappers.rs
 //@include prelude/blanket_std.rs
 //@include prelude/matrix_more_std.rs
 
 //@import units/inc/matrix_core.inc.rs
-//@import units/inc/matrix_iter.inc.rs
 //@import units/inc/matrix_queries.inc.rs
 //@import units/inc/matrix_degrees.inc.rs
 //@import units/inc/matrix_gen.inc.rs
